@@ -116,6 +116,15 @@ def skipUntil (names : List Bytes) : List Tok → Option (Tok × List Tok)
 
 def lookupIdx (xs : List (Bytes × α)) (k : Bytes) : Option α := xs.lookup k
 
+/-- `resolveTemplate`'s loop: ask the loaders in order for `name`, stop at the
+    first that has it; every `Get` is logged as (loader index, name) -/
+def tryLoaders (name : Bytes) : List (List (Bytes × Bytes)) → Nat → List (Nat × Bytes) → Option Bytes × List (Nat × Bytes)
+  | [], _, log => (none, log)
+  | l :: rest, i, log =>
+    match l.lookup name with
+    | some c => (some c, log ++ [(i, name)])
+    | none => tryLoaders name rest (i + 1) (log ++ [(i, name)])
+
 mutual
 
 /-- `newTemplate` + `FromFile`'s loading: compile `src` under `name`.  Returns
@@ -143,15 +152,7 @@ def fromFile (T : LexTables) (cfg : SetCfg) : Nat → CState → Bytes → PM (N
   | 0, _, _ => .error { kind := .outOfFuel }
   | fuel+1, cs, filename =>
     let name := Path.abs [] filename
-    let rec tryLoaders (ls : List (List (Bytes × Bytes))) (i : Nat) (log : List (Nat × Bytes)) :
-        Option Bytes × List (Nat × Bytes) :=
-      match ls with
-      | [] => (none, log)
-      | l :: rest =>
-        match l.lookup name with
-        | some c => (some c, log ++ [(i, name)])
-        | none => tryLoaders rest (i + 1) (log ++ [(i, name)])
-    let (found, log) := tryLoaders cfg.loaders 0 cs.fetchLog
+    let (found, log) := tryLoaders name cfg.loaders 0 cs.fetchLog
     let cs := { cs with fetchLog := log }
     match found with
     | none => .error { kind := .fromfile, file := filename, msg := "unable to resolve template" }
@@ -383,7 +384,7 @@ def tagParser (T : LexTables) (cfg : SetCfg) : Nat → Tok → Tok → PS → DS
           match fromFile T cfg fuel ds.cs fname with
           | .ok (ti, cs) => pure (IncludeSrc.static ti, args, { ds with cs := cs })
           | .error e =>
-            if e.kind == .fromfile && ifExists then
+            if e.kind == .fromfile && e.file == fname && ifExists then
               -- the fetch attempts are still logged
               pure (IncludeSrc.empty, args, { ds with cs := { ds.cs with fetchLog := ds.cs.fetchLog ++
                       (cfg.loaders.zipIdx.map fun (_, i) => (i, Path.abs [] fname)) } })
@@ -467,7 +468,17 @@ def tagParser (T : LexTables) (cfg : SetCfg) : Nat → Tok → Tok → PS → DS
           let (ti, cs) ← fromFile T cfg fuel ds.cs fname
           if args.remaining > 0 then .error (args.err "Malformed SSI-tag argument.")
           else pure (.tagSsi none (some ti), some close, { ds with cs := cs })
-        | none => .error { kind := .unsupported, msg := "plain ssi reads the OS file system" }
+        | none =>
+          -- `set.resolveTemplate(tpl, name)`: every loader is asked for its own Abs(tpl.name, name)
+          let fname := resolveFilename ds.ts.isString ds.ts.name f.val
+          let key := Path.abs [] fname
+          let (found, log) := tryLoaders key cfg.loaders 0 ds.cs.fetchLog
+          let ds := { ds with cs := { ds.cs with fetchLog := log } }
+          match found with
+          | none => .error { kind := .other, msg := "ssi: unable to resolve template", line := f.line, col := f.col }
+          | some content =>
+            if args.remaining > 0 then .error (args.err "Malformed SSI-tag argument.")
+            else pure (.tagSsi (some content) none, some close, ds)
     else if name == b!"templatetag" then
       match args.matchType .ident with
       | none => .error (args.err "Identifier expected.")
